@@ -14,6 +14,73 @@ open Py Xs.Bind Spec.XmlNs Spec.Hyps Spec.BindLex Proofs.GenForest
 
 /-! ### `next_value`: the pairs come from the element vars and the field values -/
 
+/-- `c` comes from one of the pairs: the value itself or one of its items -/
+def Src (vals : List (XmlVar × Val)) (c : XmlVar × Val) : Prop :=
+  ∃ vv ∈ vals, c.1 = vv.1 ∧ (c.2 = vv.2 ∨ ∃ xs, vv.2 = .list xs ∧ c.2 ∈ xs)
+
+theorem foldl_src (g : Bool × List (XmlVar × Val) → XmlVar × Val → Bool × List (XmlVar × Val))
+    (hstep : ∀ st vv, ∀ c ∈ (g st vv).2, c ∈ st.2 ∨
+      (c.1 = vv.1 ∧ (c.2 = vv.2 ∨ ∃ xs, vv.2 = .list xs ∧ c.2 ∈ xs))) :
+    ∀ (vals : List (XmlVar × Val)) (st : Bool × List (XmlVar × Val)),
+      ∀ c ∈ (vals.foldl g st).2, c ∈ st.2 ∨ Src vals c := by
+  intro vals
+  induction vals with
+  | nil => intro st c hc; exact Or.inl hc
+  | cons vv t ih =>
+    intro st c hc
+    rw [List.foldl_cons] at hc
+    rcases ih (g st vv) c hc with h | ⟨w, hw, h⟩
+    · rcases hstep st vv c h with h' | h'
+      · exact Or.inl h'
+      · exact Or.inr ⟨vv, by simp, h'⟩
+    · exact Or.inr ⟨w, List.mem_cons_of_mem _ hw, h⟩
+
+theorem roll_mem (vals : List (XmlVar × Val)) : ∀ (fuel j : Nat) (acc : List (XmlVar × Val)) (c : XmlVar × Val),
+    c ∈ nextValue.roll Proofs.C01.emitOfN fuel j vals acc → c ∈ acc ∨ Src vals c := by
+  intro fuel
+  induction fuel with
+  | zero => intro j acc c h; rw [nextValue.roll] at h; exact Or.inl h
+  | succ f ih =>
+    intro j acc c h
+    rw [nextValue.roll] at h
+    generalize hfold : List.foldl _ (false, ([] : List (XmlVar × Val))) vals = r at h
+    have key : ∀ c ∈ r.2, c ∈ ([] : List (XmlVar × Val)) ∨ Src vals c := by
+      rw [← hfold]
+      refine foldl_src _ ?_ vals (false, [])
+      intro st vv c hc
+      obtain ⟨v, x⟩ := vv
+      simp only [] at hc
+      split at hc
+      · rename_i x _ _ xs heq
+        have hx : x = Val.list xs := by
+          by_cases hcond : (v.listElement || !v.tokens) = true
+          · simpa [hcond] using heq
+          · simp [hcond] at heq
+        split at hc
+        · rename_i y hy
+          rcases List.mem_append.mp hc with h' | h'
+          · exact Or.inl h'
+          · obtain ⟨rfl, _⟩ := Proofs.C01.mem_emitOfN h'
+            exact Or.inr ⟨rfl, Or.inr ⟨xs, hx, List.mem_of_getElem? hy⟩⟩
+        · exact Or.inl hc
+      · split at hc
+        · rcases List.mem_append.mp hc with h' | h'
+          · exact Or.inl h'
+          · obtain ⟨rfl, _⟩ := Proofs.C01.mem_emitOfN h'
+            exact Or.inr ⟨rfl, Or.inl rfl⟩
+        · exact Or.inl hc
+    obtain ⟨rolling, out⟩ := r
+    simp only [] at h
+    split at h
+    · rcases ih _ _ c h with h' | h'
+      · rcases List.mem_append.mp h' with h'' | h''
+        · exact Or.inl h''
+        · rcases key c h'' with h3 | h3
+          · cases h3
+          · exact Or.inr h3
+      · exact Or.inr h'
+    · exact Or.inl h
+
 theorem go_mem (fields : List (Str × Val)) (P : XmlVar → Val → Prop)
     (hP : ∀ var xs, P var (.list xs) → ∀ x ∈ xs, P var x)
     (hf : ∀ var x, getField fields var.name = .ok x → P var x) :
@@ -45,10 +112,9 @@ theorem go_mem (fields : List (Str × Val)) (P : XmlVar → Val → Prop)
         rcases ih _ _ R h c hc with h' | ⟨h1, h2⟩
         · rcases List.mem_append.mp h' with h'' | h''
           · exact Or.inl h''
-          · rcases Proofs.C01.mem_roll _ _ _ h'' with h3 | ⟨vv, hvv, j', hj⟩
+          · rcases roll_mem _ _ _ _ _ h'' with h3 | ⟨vv, hvv, hc1, hc2⟩
             · cases h3
-            · obtain ⟨hc1, _, hc2⟩ := Proofs.C01.mem_roundJ hj
-              obtain ⟨w, hw, hwv⟩ := mapM_ok _ _ _ hvals vv hvv
+            · obtain ⟨w, hw, hwv⟩ := mapM_ok _ _ _ hvals vv hvv
               obtain ⟨x, hx, hwv⟩ := bind_ok hwv
               have hvv2 := pure_ok hwv
               subst hvv2
@@ -630,6 +696,17 @@ theorem genXsiElement_lex (s : Bool) (e : BEnv) (Γ : Ctx) (hΓ : ctxLexOK Γ = 
     cases s with
     | false => rfl
     | true => rw [(hst rfl).2] at hnc; cases hnc
+  have targetQ : ∀ m, Γ.fetch cls ns none = .ok m → var.types.contains (.cls cls) = false →
+      ∀ t, m.targetQName = some t → s = false ∧ typeNameLex t = true := by
+    intro m hfetch hnc t ht
+    have hml := fetch_lex hΓ hfetch
+    simp only [metaLex, Bool.and_eq_true] at hml
+    obtain ⟨⟨⟨_, hmt⟩, _⟩, _⟩ := hml
+    rw [ht] at hmt
+    refine ⟨?_, hmt⟩
+    cases s with
+    | false => rfl
+    | true => rw [(hst rfl).2] at hnc; cases hnc
   simp only [genXsiElement] at h
   rcases ite_cases h with ⟨_, h⟩ | ⟨hnc, h⟩
   · obtain ⟨xt, hx, h⟩ := bind_ok h
@@ -643,7 +720,7 @@ theorem genXsiElement_lex (s : Bool) (e : BEnv) (Γ : Ctx) (hΓ : ctxLexOK Γ = 
         obtain ⟨xt, hx, h⟩ := bind_ok h
         have := pure_ok hx
         subst this
-        exact ih.obj _ _ _ _ _ _ hv hqn (target m hfetch hnc') (fun hs => (hst hs).1) h
+        exact ih.obj _ _ _ _ _ _ hv hqn (targetQ m hfetch hnc') (fun hs => (hst hs).1) h
       · obtain ⟨xt, hx, h⟩ := bind_ok h
         cases hx
     · obtain ⟨m, hfetch, h⟩ := bind_ok h
